@@ -3,6 +3,7 @@ package values
 import (
 	"encoding/json"
 	"fmt"
+	"math"
 	"reflect"
 	"strconv"
 	"time"
@@ -238,11 +239,25 @@ func Convert(value any, typ reflect.Type) (any, error) { //nolint: gocyclo
 			return string(value), nil
 		case fmt.Stringer:
 			return value.String(), nil
-		default:
-			return fmt.Sprint(value), nil
+		case float32:
+			if isWholeNumber(float64(value)) {
+				return strconv.FormatFloat(float64(value), 'f', -1, 32), nil
+			}
+		case float64:
+			if isWholeNumber(value) {
+				return strconv.FormatFloat(value, 'f', -1, 64), nil
+			}
 		}
+		return fmt.Sprint(value), nil
 	}
 	return nil, conversionError("", value, typ)
+}
+
+// isWholeNumber reports whether f is a whole number that an object node writes out in
+// full (`{{ 1000000.0 }}` renders 1000000, where fmt prints 1e+06); a float converted to
+// a string, e.g. as the receiver of a string filter, is the text it prints as.
+func isWholeNumber(f float64) bool {
+	return f == math.Trunc(f) && math.Abs(f) < 1e21
 }
 
 // holdsDrop reports whether rv is a slice of interface values, such as a []any, with an
